@@ -198,6 +198,12 @@ def run_check(prop, fn, tier):
         print('ANALYSIS-BROKEN property=%s %s' % (prop, e))
         _write_broken_evidence(prop, tier, str(e))
         return 2
+    except Exception as e:          # a crash of the machinery is never a verdict
+        import traceback
+        traceback.print_exc()
+        print('ANALYSIS-BROKEN property=%s internal error: %s: %s' % (prop, type(e).__name__, e))
+        _write_broken_evidence(prop, tier, 'internal error: %s: %s' % (type(e).__name__, e))
+        return 2
 
 
 def _write_broken_evidence(prop, tier, msg):
